@@ -252,7 +252,8 @@ struct Imp {
 impl Imp {
     fn new(store: bool) -> Result<Imp, String> {
         if store {
-            let dir = tempfile::tempdir().map_err(|e| e.to_string())?;
+            // tmpfs when available: the histories fsync a lot and the property does not depend on the medium
+            let dir = if std::env::var_os("TMPDIR").is_none() && std::path::Path::new("/dev/shm").is_dir() { tempfile::tempdir_in("/dev/shm") } else { tempfile::tempdir() }.map_err(|e| e.to_string())?;
             let path = dir.path().join("c27-0.mv2");
             let mem = Memvid::create(&path).map_err(|e| format!("create: {e}"))?;
             let snap = serde_json::to_value(mem.memories()).unwrap();
@@ -308,7 +309,9 @@ fn eval_case(case: &Case, drv: &mut Option<Driver>) -> Res {
     };
     ask(drv, "new");
     let mut canon = String::new();
+    let t0 = std::time::Instant::now();
     for (i, op) in case.ops.iter().enumerate() {
+        r.trace.push(format!("   [t+{} ms]", t0.elapsed().as_millis()));
         // (request to the model, implementation's answer)
         let mut req: Option<String> = None;
         let imp_ans: String;
@@ -490,7 +493,7 @@ fn eval_case(case: &Case, drv: &mut Option<Driver>) -> Res {
             Op::Frame => {
                 let m = imp.mem.as_mut().expect("frame in store case");
                 imp.frames += 1;
-                let opts = PutOptions::builder().extract_triplets(false).build();
+                let opts = PutOptions::builder().extract_triplets(false).auto_tag(false).extract_dates(false).instant_index(false).build();
                 let body = format!("frame number {} of this history", imp.frames);
                 if let Err(e) = m.put_bytes_with_options(body.as_bytes(), opts) { r.error = Some(format!("put_bytes: {e}")); return r; }
                 imp_ans = "ok".into();
@@ -653,7 +656,7 @@ fn queries_for(rng: &mut Rng, cards: &[CardSpec], out: &mut Vec<Op>, n_pairs: us
     for _ in 0..n_pairs {
         let c = rng.pick(cards).clone();
         let (e, s) = match rng.below(8) {
-            0 => (c.entity.to_uppercase(), c.slot.to_lowercase()),
+            0 => (c.entity.to_ascii_uppercase(), c.slot.to_ascii_lowercase()),
             1 => (rand_case_of(rng, &c.entity), rand_case_of(rng, &c.slot)),
             2 => ("nobody".to_string(), c.slot.clone()),
             // the other split of a colon-joined key
@@ -865,7 +868,10 @@ fn record(case: &Case, res: &Res, sum: &mut Summary, known: &[String]) {
 fn shrink(case: &Case, drv: &mut Option<Driver>, res: &Res) -> Case {
     let sig = res.oracle.first().map(|x| x.0.clone());
     let had_dis = !res.disagree.is_empty();
+    let mut budget = if case.store { 30 } else { 400 };
     let mut fails = |ops: &[Op]| {
+        if budget == 0 { return false; }
+        budget -= 1;
         if matches!(ops.first(), Some(Op::Raw(_))) != matches!(case.ops.first(), Some(Op::Raw(_))) { return false; }
         let c = Case { store: case.store, model: case.model, ops: ops.to_vec() };
         let r = guarded(std::panic::AssertUnwindSafe(|| eval_case(&c, drv)));
@@ -908,14 +914,17 @@ fn main() {
         sum.finish(&args);
     }
     let mut rng = Rng::new(args.seed);
-    let (n_track, n_raw, n_uni, n_store) = if args.thorough { (6000, 1500, 600, 1500) } else { (700, 200, 80, 110) };
+    let (n_track, n_raw, n_uni, n_store) = if args.thorough { (6000, 1500, 600, 700) } else { (700, 200, 80, 40) };
     let mut cases = corpus();
     for _ in 0..n_track { cases.push(gen_track_case(&mut rng, args.thorough)); }
     for _ in 0..n_raw { cases.push(gen_raw_case(&mut rng)); }
     for _ in 0..n_uni { cases.push(gen_unicode_case(&mut rng)); }
     for _ in 0..n_store { cases.push(gen_store_case(&mut rng, args.thorough)); }
     let mut reported: BTreeSet<String> = BTreeSet::new();
+    let t_start = std::time::Instant::now();
+    let mut t_store = std::time::Duration::ZERO;
     for case in &cases {
+        let t_case = std::time::Instant::now();
         let res = match guarded(std::panic::AssertUnwindSafe(|| eval_case(case, &mut drv))) {
             Ok(r) => r,
             Err(p) => {
@@ -939,7 +948,9 @@ fn main() {
         } else {
             record(case, &res, &mut sum, &known);
         }
+        if case.store { t_store += t_case.elapsed(); }
     }
+    sum.notes.push(format!("wall: {:.1}s total, {:.1}s in store cases", t_start.elapsed().as_secs_f64(), t_store.as_secs_f64()));
     sum.model_requests = drv.as_ref().map(|d| d.requests).unwrap_or(0);
     sum.finish(&args);
 }
